@@ -303,6 +303,11 @@ def one_queue(run, f, sp, lc, rule="O2.1"):
                         c = strip_wrappers(tt[1])
                         if c[0] == "call" and "WeakSender" in c[2] and c[2].endswith("upgrade"):
                             origin = "upgrade of the weak sender"
+                    if origin is None and tt[0] == "field" and tt[1] == 0 and tt[2][0] == "downcast" and tt[2][1] == "Some":
+                        # `let Some(sender) = weak.upgrade() else {..}` / `match weak.upgrade() { Some(sender) => .. }`
+                        c = strip_wrappers(tt[2][2])
+                        if c[0] == "call" and "WeakSender" in c[2] and c[2].endswith("upgrade"):
+                            origin = "upgrade of the weak sender"
                     t2 = t2_
                     run.require(origin is not None, rule, "actorref-sender-origin:%s" % short_fn(bd.root or bd.defn), "ActorRef built in %s with sender %s" % (bd.name, show(t)),
                                 "sender: %s" % origin, loc=f.span(st["span"]).loc)
